@@ -239,13 +239,40 @@ func (c *c47ctx) lines(idx int, rng *rand.Rand) {
 		effective = 64 * 1024
 	}
 	wit := func() map[string]any {
-		return map[string]any{"maximum_buffer_size": p.MaximumBufferSize, "writes": chunksText(chunks), "callbacks": fmt.Sprintf("%q", got)}
+		return map[string]any{"maximum_buffer_size": p.MaximumBufferSize, "writes": chunksText(chunks), "callbacks": fmt.Sprintf("%q", got), "caller_reuses_one_buffer": idx%3 != 0}
 	}
 	var pending []byte
 	var want []string
 	overflows := 0
+	// Two thirds of the cases feed the writer the way io.Copy does: every chunk
+	// is copied into ONE reused buffer, which is overwritten with different
+	// bytes as soon as Write has returned (io.Writer forbids retaining it).
+	reuse := idx%3 != 0
+	var shared []byte
+	if reuse {
+		longest := 0
+		for _, ch := range chunks {
+			longest = max(longest, len(ch))
+		}
+		shared = make([]byte, longest)
+	}
+	midline := 0
 	for i, ch := range chunks {
-		n, err := p.Write(ch)
+		if len(pending) == 0 && len(ch) > 0 && ch[len(ch)-1] != '\n' {
+			midline++ // the chunk ends inside a line while the processor holds nothing
+		}
+		var n int
+		var err error
+		if reuse {
+			view := shared[:len(ch)]
+			copy(view, ch)
+			n, err = p.Write(view)
+			for j := range shared {
+				shared[j] = "\nZ\r#"[j%4]
+			}
+		} else {
+			n, err = p.Write(ch)
+		}
 		if effective > 0 && len(pending)+len(ch) > effective {
 			overflows++
 			if !errors.Is(err, stream.ErrMaximumBufferSizeExceeded) {
@@ -299,7 +326,10 @@ func (c *c47ctx) lines(idx int, rng *rand.Rand) {
 				crlf = true
 			}
 		}
-		c.distinct(fmt.Sprintf("lines|limit=%v|overflow=%v|crlf=%v|n=%d", effective > 0 && effective < 1000, overflows > 0, crlf, min(len(want), 6)))
+		c.distinct(fmt.Sprintf("lines|limit=%v|overflow=%v|crlf=%v|n=%d|reused=%v", effective > 0 && effective < 1000, overflows > 0, crlf, min(len(want), 6), reuse))
+		if reuse && midline > 0 {
+			c.r.Count("line_processor_reused_buffer_cases_with_midline_chunk_on_empty_processor", 1)
+		}
 		if crlf && overflows > 0 && len(want) > 2 {
 			c.sample("line-processor", wit)
 		}
@@ -652,5 +682,5 @@ func c47() {
 	}
 	r.Assume("the scripted downstream obeys io.Writer: it returns n < len only together with an error; callers of the cutoff writer continue with the unwritten rest after a short count")
 	r.Assume("concurrent variants decide on logical order only (atomic flags set after Shut / close returned); data races are reported separately by the race detector")
-	r.Finish("seeded random write sequences against each helper of pkg/stream with a scripted downstream (accept / short write with error / fail): cutoff writer (downstream holds exactly the first N bytes reported written, nothing reaches it afterwards, later bytes reported written), hashed writer (digest = hash of accepted bytes), line processor (callbacks = input split at \\n with one \\r trimmed for any fragmentation; overflow exactly when buffered+new > limit, default 64 KiB, negative = unlimited), preemptable writer (<= interval writes reach downstream after cancellation, none after ErrWritePreempted), valve (nothing after Shut, success reported, nil writer = shut), multi-closer (each once, in order, first error); concurrent rounds for concurrent writer, valve vs Shut, preemptable vs cancel under the race detector; distinct = per-helper classes of non-trivial cases (cutoff exceeded, short writes seen, overflow hit, cancellation phase, shut position, error count)", 40)
+	r.Finish("seeded random write sequences against each helper of pkg/stream with a scripted downstream (accept / short write with error / fail): cutoff writer (downstream holds exactly the first N bytes reported written, nothing reaches it afterwards, later bytes reported written), hashed writer (digest = hash of accepted bytes), line processor (callbacks = input split at \\n with one \\r trimmed for any fragmentation, two thirds of the cases fed io.Copy-style through one reused buffer that is overwritten after every Write; overflow exactly when buffered+new > limit, default 64 KiB, negative = unlimited), preemptable writer (<= interval writes reach downstream after cancellation, none after ErrWritePreempted), valve (nothing after Shut, success reported, nil writer = shut), multi-closer (each once, in order, first error); concurrent rounds for concurrent writer, valve vs Shut, preemptable vs cancel under the race detector; distinct = per-helper classes of non-trivial cases (cutoff exceeded, short writes seen, overflow hit, cancellation phase, shut position, error count)", 40)
 }
